@@ -6,7 +6,7 @@ import random
 from .scn import Scenario, h
 
 DELIMS = [b"=", b":=", b" ", b" \t", b" =", b"\t =", b""]
-COMMENTS = [b"#", b";", b"#;"]
+COMMENTS = [b"#", b";", b"#;", b""]      # the empty argument means the default "#"
 OPTIONS = [None, b"JOIN_SAME_ENTRIES=1", b"PYTHON_STYLE=1", b"JOIN_SAME_ENTRIES=1;PYTHON_STYLE=1"]
 
 ALPHA1 = [b"a", b"=", b" ", b"#", b"[", b"]", b'"', b"\n"]
